@@ -21,6 +21,7 @@ RULE = (
     "2x2 sums to the total, TP = diagonal, P = row sums, TOP = column sums. W1: 2-6 classes named by ints, strings, non-contiguous ints; 0-40 "
     "samples; int / float / absent weights; vectorised matrices with X up to 2-d incl. size-0. Non-trivial: >= 1 sample and >= 3 classes or "
     "off-diagonal mass; distinct = hash of inputs."
+    ' Build-phase additions: integer weights up to 1e16 compared exactly (Python integers), 17-260 classes, as_dict results typed, every alias.'
 )
 ASSUMPTIONS = ["non-negative finite weights/entries", "pandas only as a container"]
 PER_CLASS = ["tpr", "fpr", "tnr", "fnr", "ppv", "npv", "fdr", "for_", "tp", "fn", "fp", "tn", "p", "n", "top", "ton", "topr", "tonr", "class_accuracy", "class_error_rate", "tar", "far", "frr", "trr",
@@ -51,7 +52,8 @@ def cases(ctx):
         if wk == 1 and i % 5 == 2:
             # integer weights in very fine base units (or one aggregated stratum of 1e16 beside ordinary samples): integer cells are exact totals,
             # also beyond 2**53
-            w = rng.integers(10 ** 15, 10 ** 16, m) * 2 + 1 if rng.random() < 0.5 else np.where(rng.random(m) < 0.2, 10 ** 16 + 1, rng.integers(1, 9, m)).astype(np.int64)
+            hi_ = min(10 ** 16, (2 * 10 ** 18) // max(m, 1))  # every cell total (and the population) stays inside int64
+            w = rng.integers(hi_ // 10, hi_, m) * 2 + 1 if rng.random() < 0.5 else np.where(rng.random(m) < 0.2, hi_ + 1, rng.integers(1, 9, m)).astype(np.int64)
         lead = tuple(int(x) for x in rng.integers(0, 3, int(rng.integers(0, 3))))
         M = rng.integers(0, 9, (*lead, K, K)) if rng.random() < 0.5 else rng.uniform(0, 5, (*lead, K, K))
         if rng.random() < 0.2:  # weights / entries of another magnitude (importance weights of 1e-12, populations of 1e12): exact power-of-two scaling
